@@ -16,6 +16,9 @@ import (
 
 type crashScenario struct {
 	Name  string
+	// MayFail: the uninterrupted run is allowed to fail (e.g. a cross-device rename git-lfs refuses); the
+	// property is judged all the same: no kill point leaves a bad object, a re-run ends like the uninterrupted run
+	MayFail bool
 	Setup func(dir string, srv *fpServer, r *Rng) error // builds the pre-state
 	Run   func(dir string, env []string) (string, int)  // the command under test
 }
@@ -224,6 +227,39 @@ func c09Scenarios(c *Ctx) []crashScenario {
 		}, Run: func(dir string, env []string) (string, int) {
 			return runIn(dir, env, c.Lfs, "fetch")
 		}},
+		{Name: "fetch-agent-other-filesystem", MayFail: true, Setup: func(dir string, srv *fpServer, r *Rng) error {
+			// a custom transfer agent that leaves its files on ANOTHER file system (tmpfs): the final
+			// rename into lfs/objects cannot be a rename(2)
+			self, err := os.Executable()
+			if err != nil {
+				return err
+			}
+			scratch, err := os.MkdirTemp("/dev/shm", "verif-c09-")
+			if err != nil {
+				return nil // no second file system here: the scenario degenerates to "nothing to fetch"
+			}
+			c09RefDirs = append(c09RefDirs, scratch)
+			store := filepath.Join(c.Work, "c09-agent-store")
+			os.MkdirAll(store, 0o755)
+			contents, err := commitPointers(dir, nil, r, 2, false)
+			if err != nil {
+				return err
+			}
+			for _, b := range contents {
+				os.WriteFile(filepath.Join(store, sha(b)), b, 0o644)
+			}
+			script := filepath.Join(c.Work, "c09-agent-script")
+			os.WriteFile(script, []byte("x/"+store+"|"+scratch+"\n"), 0o644)
+			gitIn(dir, nil, "config", "lfs.url", "http://127.0.0.1:9/never-contacted")
+			gitIn(dir, nil, "config", "lfs.standalonetransferagent", "otherfs")
+			gitIn(dir, nil, "config", "lfs.customtransfer.otherfs.path", self)
+			gitIn(dir, nil, "config", "lfs.customtransfer.otherfs.args", "custom-agent")
+			gitIn(dir, nil, "config", "lfs.customtransfer.otherfs.concurrent", "false")
+			return nil
+		}, Run: func(dir string, env []string) (string, int) {
+			e := append(append([]string(nil), env...), "VERIF_AGENT_SCRIPT="+filepath.Join(c.Work, "c09-agent-script"), "VERIF_AGENT_REPEAT=1")
+			return runIn(dir, e, c.Lfs, "fetch", "--all")
+		}},
 		{Name: "migrate-import", Setup: func(dir string, srv *fpServer, r *Rng) error {
 			for i := 0; i < 2; i++ {
 				os.WriteFile(filepath.Join(dir, fmt.Sprintf("m%d.big", i)), r.Bytes(Pick(r, []int{3000, 80000})), 0o644)
@@ -312,7 +348,8 @@ func c09(c *Ctx) {
 		os.Remove(tracef)
 		pathEnv := "PATH=" + filepath.Dir(c.Lfs) + ":" + os.Getenv("PATH") // hooks installed by the commands call `git-lfs`
 		out, code := sc.Run(ref, []string{"VERIF_CRASH_LOG=" + logf, "VERIF_TRACE=" + tracef, pathEnv})
-		if code != 0 {
+		refCode := code
+		if code != 0 && !sc.MayFail {
 			c.R.Add(Finding{Kind: "diff", What: fmt.Sprintf("scenario %s does not succeed uninterrupted (exit %d): %s", sc.Name, code, clip(out, 300)), Broken: "corr.C09.crash"})
 			continue
 		}
@@ -390,7 +427,7 @@ func c09(c *Ctx) {
 				}
 				// 3. re-running completes and reaches the uninterrupted state
 				out, code := sc.Run(dir, []string{pathEnv})
-				if code != 0 {
+				if code != 0 && !(sc.MayFail && refCode != 0) {
 					c.R.Add(Finding{Kind: "oracle", What: "re-running the command after SIGKILL does not complete", Case: caseID, Impl: clip(out, 300)})
 					return
 				}
